@@ -266,27 +266,40 @@ def run(ctx):
                 writes.append((bi, "none-init" if is_none else ("in-TargetInfo-arm" if bi in ti_region else "elsewhere")))
         kinds = sorted({w[1] for w in writes})
         ctx.ob("PLATFORM", "single-writer", kinds == ["in-TargetInfo-arm", "none-init"], f"assignments to target_info: {kinds}; only the initial None and the TargetInfo arm may assign it", ab.file, ab.line, sample=True)
+        # every dat / index file name built while applying a command (the path builders may be closures, nested fns or
+        # helpers: they are analysed inlined into apply) formats the ids of the command of its own arm and the platform
+        # of the recorded target info
+        from ..strx import StrX, show as sshow
+
         ix = index_of(ab)
+        sx = StrX(ab)
         n_calls = 0
-        for bi, t in ab.calls():
-            c = t.get("resn") or t.get("res") or ""
-            if "{closure#0}" in c or "{closure#1}" in c:
-                # Fn::call(&closure, (target_info, main_id, sub_id, file_id))
-                tup = ix.resolve(t["args"][1]) if len(t["args"]) > 1 else ("unknown",)
-                if tup[0] == "rv" and tup[1]["k"] == "agg" and len(tup[1]["ops"]) == 4:
-                    n_calls += 1
-                    ops = tup[1]["ops"]
-                    d0 = derive(ix, ops[0])
-                    names = [sorted(derive(ix, o).names & {"main_id", "sub_id", "file_id"}) for o in ops[1:]]
-                    arm = next((k for k, reg in regions.items() if k[1] and k[2] is None and bi in reg), ("?",))
-                    ctx.ob("PLATFORM", f"path-args|{arm[1] if len(arm) > 1 else '?'}", tloc in d0.locals and names == [["main_id"], ["sub_id"], ["file_id"]], f"{arm}: path builder called with target_info={tloc in d0.locals}, ids {names}; must be (target_info, main_id, sub_id, file_id)", ab.file, ab.line)
-        ctx.floor("PLATFORM", "path builder call sites", n_calls, 5)
-        for c in prog.closures_of("patch::ZiPatch::apply"):
-            for _bi, t in c.calls():
-                if (t.get("res") or "") == "common::get_platform_string":
-                    cix = index_of(c)
-                    d = derive(cix, t["args"][0])
-                    ctx.ob("PLATFORM", f"platform-arg|{c.name.split('::')[-1]}", "platform" in d.names and 2 in d.params, f"{c.name}: get_platform_string argument derives from fields {sorted(d.names)} of parameter {sorted(d.params)}; must be target_info.platform", c.file, c.line)
+        for bi, pcs in sx.format_sites():
+            lits = "".join(p_[1] for p_ in pcs if p_[0] == "lit")
+            if ".dat" not in lits and ".index" not in lits:
+                continue
+            args = [p_ for p_ in pcs if p_[0] == "arg"]
+            kind = "dat" if ".dat" in lits else "index"
+            arm = next((k for k, reg in regions.items() if k[1] and k[2] is None and bi in reg), ("?", "?"))
+            n_calls += 1
+            ids = []
+            plat = False
+            for a in args:
+                d = derive(ix, a[3]) if a[3] is not None else None
+                if d is None:
+                    ids.append("?")
+                    continue
+                calls = {c_.split("::")[-1] for c_ in d.calls}
+                if "get_platform_string" in calls:
+                    plat = tloc in d.locals and "platform" in d.names
+                    ids.append("platform")
+                else:
+                    got = sorted(d.names & {"main_id", "sub_id", "file_id"})
+                    ids.append(got[0] if len(got) == 1 else "?" + "+".join(got))
+            want = ["main_id", "sub_id", "platform"] + (["file_id"] if kind == "dat" else [])
+            ok = ids[: len(want)] == want and plat and all(x == "file_id" for x in ids[len(want):])
+            ctx.ob("PLATFORM", f"path-args|{arm[1]}|{kind}", ok, f"{arm}: {kind} file name {sshow(pcs)!r} is formatted from {ids} (platform from target_info: {plat}); must be (main_id, sub_id, platform of the recorded target info{', file_id' if kind == 'dat' else ''})", ab.file, ab.line)
+        ctx.floor("PLATFORM", "dat/index file names built per command", n_calls, 5)
 
     # ---- PROV
     ix = index_of(ab)
